@@ -60,7 +60,7 @@ def judge(st, sid, sch, case, res, m, fname, label):
     st.evaluations += 1
     script = 'schema %s %s\n%s' % (sid, sch.spec(), case.script())
     if res.status in ('crash', 'hang'):
-        st.violation('%s:%s' % (res.status, engine.sanitizer_summary(res.info)), script, '', res.info[-1500:])
+        st.violation('%s:%s' % (res.status, engine.sanitizer_summary(res.info)), script, '', engine.excerpt(res.info))
         return
     rc = res.first('r parse')
     diags = res.all('diag ')
